@@ -20,7 +20,7 @@ LEVEL_TEXT = ("Props/C17.v: 5 theorems over arbitrary kernel outputs. Per run, f
 LEVEL_NOTE = ("Trusted: Coq kernel, extraction, driver.ml, harness, numpy/scipy as executors. Axiom-free theorems. The kernels are "
               "deterministic, so calls under different options see the same raw polynomial: this is assumed by the pairwise comparison.")
 RULE = ("all generators x argument tuples (degrees <= 24 where a monomial call is involved, up to 60 otherwise) x all 8 combinations of "
-        "return_scale / ensure_bounded / chebyshev_basis, compared pairwise; repeated calls with the same arguments in one process "
+        "return_scale / ensure_bounded / chebyshev_basis, compared pairwise; shapes whose unnormalised fit is flat or tall (applied factor 0.05..50);  repeated calls with the same arguments in one process "
         "(caching defects); distinct by JSON; non-trivial = always")
 TRUSTED = ["Coq 8.16.1 kernel", "extraction (ExtrOcamlBasic, ExtrOcamlZBigInt) + driver.ml + zarith", "harness (impl_runner.py, impl_handlers5.py)",
            "numpy/scipy as executors of the implementation"]
@@ -58,6 +58,15 @@ def run(ctx):
         # 1/x over small and ordinary b = int(kappa^2 log(kappa/eps)) (the Chebyshev sum has trailing zeros when j0 >= b)
         for kappa, eps in ((1.5, 0.3), (1.3, 0.2), (1.1, 0.01), (2.0, 0.1), (3.0, 0.3), (1.2, 0.3)):
             groups.append({"name": "invert", "args": G.enc_args({"kappa": kappa, "epsilon": eps}), "extra": {}, "order": rng.sample(range(8), 8), "cheb_only": False})
+        # shapes whose unnormalised fit is small (or large) everywhere on [-1,1]: the applied factor is far from 1
+        flat = [("sign", {"delta": 0.1}), ("sign", {"delta": 0.02}), ("thresh", {"delta": 0.2}), ("thresh", {"delta": 0.05}), ("phase_est", {"delta": 0.1}),
+                ("linamp", {"gamma": 2.0, "kappa": 5}), ("linamp", {"gamma": 3.0, "kappa": 10}), ("softplus", {"delta": 0.9, "kappa": 40}),
+                ("gibbs", {"beta": 0.01}), ("efilter", {"delta": 0.9}), ("relu", {"delta": 0.9})]
+        for name, sh in (flat[::2] + flat[1::4] if quick else flat):
+            for dlo, dhi in ((2, 10),) if quick else ((2, 10), (11, 24)):
+                a = dict(sh, degree=G.right_parity_degree(rng, name, dlo, dhi))
+                extra = {"max_scale": hexf(rng.choice([0.9, 1.0, 0.5]))} if rng.random() < 0.5 else {}
+                groups.append({"name": name, "args": G.enc_args(a), "extra": extra, "order": rng.sample(range(8), 8), "cheb_only": False})
         for name in ("cos", "sin"):
             for tau, eps in ((16.0, 0.3), (0.5, 0.3), (12.0, 0.5), (8.0, 0.3), (3.0, 0.5), (1.0, 0.1)):
                 groups.append({"name": name, "args": G.enc_args({"tau": tau, "epsilon": eps}), "extra": {}, "order": rng.sample(range(8), 8), "cheb_only": False})
